@@ -18,28 +18,28 @@ CLAIMED = {
             "Same plan space as C03. The recorded history of each connection (client inputs, server session envelopes, callback invocations, visible State()) is walked through a reference model written from the protocol text: per input it says which emissions are acceptable (with latitude where the text leaves it), and invariants (single id, sender node, reason on failed, nothing after terminal, close after failed, monotone state) are checked on every envelope.",
             "the reference model encodes my reading of README/property text; where the text is silent (undecodable input, callback errors, empty capability intersection) both behaviours are accepted"),
     "C12": ("fault_enumeration", "seeded deterministic simulation with systematic fault enumeration on a simulated net.Conn: every split point, pairs of splits, every cut offset x FIN/RST, every short-write length with a socket-deadline timeout, coalescing boundaries, stalls around the 5 s poll; then random fault plans, plain and TLS",
-            "Real tcpTransport on both ends of a faulty simulated link. Oracle: the received sequence is item-wise equal to a prefix of what was sent (nothing corrupted, duplicated, reordered or fabricated); with no cut and no receive deadline every send that returned nil is received. The systematic families are exhaustive for the stated small stream in the thorough tier.",
+            "Real tcpTransport on both ends of a faulty simulated link. Oracle: the received sequence is item-wise equal to a prefix of what was sent (nothing corrupted, duplicated, reordered or fabricated); with no cut and no receive deadline every send that returned nil is received; receivers that call Receive again after an expired receive context and senders that go on after a Send whose context ended are part of the plan space, as are envelope-shaped JSON payloads and a stall-past-the-receive-deadline sweep over every offset. The systematic families are exhaustive for the stated small stream in the thorough tier.",
             "simnet honours the net.Conn contract (short write + timeout like a real socket), not a kernel's TCP; TLS runs real crypto/tls"),
     "C16": ("exploration", "seeded deterministic simulation: raw writer feeding a real TCP transport with exact-size envelopes swept around the read-limit boundaries under random fragmentation/coalescing; per-Receive byte accounting on the simulated connection",
-            "Per Receive call the bytes taken from the connection (counted by simnet) must not exceed the limit; envelopes above twice the limit must be rejected wherever they occur; envelopes of at most limit-2 bytes must be accepted after any valid preceding traffic; sizes in between may go either way.",
+            "Per Receive call the bytes taken from the connection (counted by simnet) must not exceed the limit; envelopes above twice the limit must be rejected wherever they occur; envelopes of at most limit-2 bytes must be accepted after any valid preceding traffic; sizes in between may go either way; slow writers against polling receivers, receive contexts ending the instant an envelope becomes complete, and transports with a TraceWriter are part of the plan space.",
             "limits 256..65536 in quick, plus the 8 MiB default in thorough; behaviour after an undecodable frame is not asserted"),
     "C04": ("exploration", "seeded deterministic simulation: real Server + real ClientChannel over simulated tcp/tcp+tls/ws/wss/in-process links, concurrent sender tasks in both directions, slow consumers, zero-size buffers, benign link faults; multiset/order/content oracle over the quiescent history",
-            "For sessions that stay established: per direction the delivered envelopes equal the successfully sent ones as multisets, each exactly once, canonical content equal, per (sender task, kind) in send order, nothing delivered that was not sent.",
+            "For sessions that stay established: per direction the delivered envelopes equal the successfully sent ones as multisets, each exactly once, canonical content equal, per (sender task, kind) in send order, nothing delivered that was not sent; a session that nobody ended and whose link was never cut is still established at the end (benign faults incl. stalls longer than the 5 s I/O poll behind small send buffers, handler delays up to 6 s, a late response to an abandoned ProcessCommand travelling with the traffic).",
             "envelopes come from the generator's safe value space (C01 is not claimed); wss links get no bounded send buffer (library-managed TLS, see DESIGN limits)"),
     "C10": ("exploration", "seeded deterministic simulation: scripted cooperative and negotiation-skipping clients vs real servers whose encryption list excludes none, on TLS-capable tcp and wss; cleartext/TLS tagging of every frame and callback; control group with the premise false",
             "With the premise true, no authentication request, no authentication callback and no establishment may be observed while the connection is unencrypted; the control group (premise false) must stay silent.",
             "cleartext vs TLS is decided by whether the scripted peer had completed the TLS handshake when the frame arrived, and by Transport.Encryption() at callback time"),
     "C15": ("exploration", "seeded deterministic simulation on the fake clock: one context-taking operation per run against a silent or non-reading peer, deadline or cancellation at chosen instants; latency after the context's end measured in simulated time",
-            "Each operation must return; if its context ended first, within 1 s (deadline) or 5 s (cancellation) of that end; still blocked 70 s later is reported as blocked indefinitely. Code runs in zero simulated time, so the measured latency is exactly polling/missed wake-ups.",
+            "Each operation must return; if its context ended first, within 1 s (deadline) or 5 s (cancellation) of that end; still blocked 70 s later is reported as blocked indefinitely; server-side FinishSession/FailSession towards a client that consumes nothing and TCP transports with a TraceWriter are among the operations. Code runs in zero simulated time, so the measured latency is exactly polling/missed wake-ups.",
             "no bounded send buffer on wss (library-managed TLS cannot park a writer in a bubble), so 'peer not reading' on wss is not explored"),
     "C18": ("exploration", "seeded deterministic simulation: real Server with 1-3 mixed listeners and 0-5 real clients plus failing raw clients; Server.Close at any simulated instant and scheduling point; callback/ordering/census oracles; goroutine panics of lime code are violations",
-            "No lime goroutine panics; ListenAndServe returns ErrServerClosed; no listener accepts afterwards; every established client observes finished; Established exactly once and only for established sessions, before any handler; Finished exactly once afterwards for the same set; no serving task left 30 s later.",
+            "No lime goroutine panics; ListenAndServe returns ErrServerClosed; no listener accepts afterwards; every established client observes finished; Established exactly once and only for established sessions, before any handler; Finished exactly once afterwards for the same set; no serving task left 30 s later; clients that reset their established connection, and a second serve/close cycle of the same Server, are part of the plan space.",
             "select poll order at the queue selects is a tape decision, so 'both arms ready' is explored on purpose"),
     "C02": ("exploration", "seeded deterministic simulation: hostile bytes as a peer/link fault (structurally mutated valid encodings at any nesting level, truncation, bit flips, glued frames, inserted bytes) delivered under random fragmentation to real TCP/websocket transports and to established sessions of a real Server and a real ClientChannel; goroutine panics of lime code are violations",
             "No lime goroutine may panic (the decoder runs on unrecovered receiver goroutines, so a panic is a process crash); every accepted envelope re-encodes, decodes again and re-encodes to the same bytes; after hostile input on one session a fresh client can still establish. Byte-level coverage-guided fuzzing of the typed decoders is a pure-input technique and is not claimed.",
             "mutations are drawn from a seeded generator over the rich envelope generator and session templates; depth of byte-level exploration is that of random mutation, not of a coverage-guided fuzzer"),
     "C05": ("exploration", "seeded deterministic simulation: concurrent ProcessCommand callers with colliding ids and deadlines vs a scripted responder (now/late/never/twice/reordered/other-id/unsolicited), every request and response tagged; interval reasoning over the recorded history stamped with scheduler step numbers",
-            "A call returns only its own id's response, or its context's error only after the context ended, or 'in use' only with an overlapping same-id call; each response is consumed at most once; unmatched responses surface on the stream; a timely answer to a call without competitors is returned by it. porcupine was considered and not used (one long blocking call, not invoke/return pairs on a shared object).",
+            "A call returns only its own id's response, or its context's error only after the context ended, or 'in use' only with an overlapping same-id call; each response is consumed at most once; unmatched responses surface on the stream; a timely answer to a call without competitors is returned by it; no two accepted calls with one id are pending at one moment; also over the in-process transport with a server that stops reading (requests that cannot even be sent). porcupine was considered and not used (one long blocking call, not invoke/return pairs on a shared object).",
             "response delays are allowed to coincide exactly with context deadlines (that is how the id-reuse race was found)"),
     "C06": ("exploration", "seeded deterministic simulation: application tasks calling the send operations from before the handshake until after the end, on a real ServerChannel vs scripted client and a real ClientChannel vs scripted server; wire-order oracle on the peer's frames plus before/after state observation per call",
             "A send whose whole call lay outside the established state fails and emits nothing; data frames appear on the wire only between the established envelope and the endpoint's terminal session envelope; no garbled frame; a data envelope injected into the handshake aborts it and is never delivered; after the server's terminal envelope has had time to arrive client sends fail.",
@@ -51,19 +51,19 @@ CLAIMED = {
             "Offer = configured intersect supported (as sets); confirmation only of a pair from the offer, anything else failed and never established; after a TLS confirmation only TLS records in either direction and no readable session data; the confirmed upgrade completes under benign faults.",
             "for ws/wss/in-process the frames are those a scripted client sees; 'supported' is taken from the protocol facts per transport kind (a plain TCP listener advertises tls: both readings accepted)"),
     "C13": ("exploration", "seeded deterministic simulation: established sessions over every transport ended by client FinishSession / server FinishSession / server FailSession / Client.Close / Server.Close at a chosen instant with traffic in flight and slow consumers; bounded-liveness and task-census oracles",
-            "The terminating call returns and disconnects the initiator; the peer reaches the terminal state; receiver-done and streams close and consumers return within 30 s; Finished fires once; after both sides closed no session goroutine (by spawn site) and no open connection end (incl. earlier failed attempts) remains; no panic.",
+            "The terminating call returns and disconnects the initiator; the peer reaches the terminal state; receiver-done and streams close and consumers return within 30 s; Finished fires once; after both sides closed no session goroutine (by spawn site) and no open connection end (incl. earlier failed attempts) remains; a send on the ended session is refused, not left blocked; no panic. One recorded known finding (Server.Close's 1 s finish budget vs a slow in-process consumer) is reported as KNOWN-FINDING.",
             "census exemptions: listener-level goroutines of a still running server are not session goroutines"),
     "C14": ("exploration", "seeded deterministic simulation: full ServerBuilder server vs 1-4 concurrent scripted clients (cooperative, vanishing by FIN/RST at a step or exactly inside the authenticate/register callback, random handshake words), callback errors; release oracle per connection + session-goroutine census",
             "A connection that did not establish (client never saw 'established' and the established envelope never reached the socket) is closed by the server within 90 s of the client's last complete input, fires no callback, has its server end closed, and leaves no session goroutine.",
             "a client that is silent, or whose last bytes are an incomplete JSON value, is legitimately waited for"),
     "C17": ("exploration", "seeded deterministic simulation: one server with mixed listeners and 2-6 concurrent real clients, tagged traffic, handlers recording the context's session id / nodes and replying through the Sender they were handed",
-            "Handler context values equal those of the session the envelope was sent on; replies reach the originating client and nobody else; announced ids pairwise distinct and known to the server; on a fault-free network every client is served.",
+            "Handler context values equal those of the session the envelope was sent on; replies reach the originating client and nobody else; announced ids pairwise distinct and known to the server; on a fault-free network every client is served; clients that reset their connection mid-traffic and request/response exchanges whose command ids are shared by all clients are part of the workload.",
             "sessions are identified by the id announced to the client and the node returned by the register callback"),
     "C19": ("exploration", "seeded deterministic simulation: real high-level Client (listener goroutine, reconnect loop, back-off on the fake clock) vs real Server; 1-3 rounds of unrequested loss (server finish/fail/close, FIN, RST, half-close, undecodable bytes, non-envelope JSON, oversized envelope, server restart) at idle / mid-send / mid-push / mid-re-establishment; bounded-liveness oracle after faults stop; busy loops detected from scheduler statistics",
             "Once faults stop a SendMessage succeeds within 120 s on a session the server serves; a message pushed on the client's current session reaches the registered handler; a send 1 s or more after the loss that returns nil was received; no busy loop (tens of thousands of scheduler steps at one simulated instant); no panic.",
             "sends racing with the loss itself may be accepted by a socket whose peer is gone; only later probes are judged"),
     "C20": ("exploration", "seeded deterministic simulation: per-run generated handler tables (0-4 handlers per kind, predicate family, error at k-th call) on the server or on a client-side EnvelopeMux, inbound envelopes of all four kinds through the real receiver/stream/select pipeline",
-            "Exactly one invocation, of the earliest-registered matching handler, envelope unaltered; none when nothing matches and later envelopes still dispatched; nothing after a handler error; the server then finishes the session / ListenClient returns the error.",
+            "Exactly one invocation, of the earliest-registered matching handler, envelope unaltered; none when nothing matches and later envelopes still dispatched; nothing after a handler error; the server then finishes the session / ListenClient returns the error; handlers take 0-150 ms, sessions may be ended while handlers run, and the late response to an abandoned command is an inbound envelope like any other.",
             "predicates and handlers are harness functions; the dispatch itself is real"),
 }
 
